@@ -42,6 +42,8 @@ def instances(tier, seed):
     for k, pp in enumerate(['p3', 'flipx', 'rz90', 'p5', 'near-anti', 'ry-90'] + (['p1', 'p2', 'p4', 'flipz', 'flipy', 'rz-90'] if big else [])):
         sname = ['S1', 'S4', 'S2', 'S12'][k % 4]
         add(f"patpose:{pp}:{sname}:axis{k % 3}", struct=sname, axes=[k % 3], other=(0.9, 0.4, 0.1), pat_pose=pp, pat_translate='sym', cost=25)
+    for sname, ax in (('S20', 1), ('S21', 2), ('S14', 0), ('S15', 1)):
+        add(f"patpose:{PAT_POSE[sname]}:{sname}:axis{ax}:antiparallel-copy", struct=sname, axes=[ax], other=(0.2, 0.7, 0.4), pat_pose=PAT_POSE[sname], pat_translate='sym', cost=25)
     # (d) hints
     triples = [(a, b, c) for a in range(4) for b in range(4) for c in range(4) if len({a, b, c}) == 3]
     hl = triples if big else [(0, 1, 2), (2, 0, 3), (3, 2, 0), (1, 3, 2), (2, 3, 1)]
